@@ -6,7 +6,10 @@ import (
 	"math/rand"
 	"os"
 	"path/filepath"
+	"sort"
 	"strings"
+	"sync"
+	"sync/atomic"
 	"time"
 
 	"github.com/akrennmair/updog"
@@ -265,7 +268,7 @@ func headBytes(b []byte, n int) []byte {
 func runC14(r *vf.Run) {
 	r.Rule("one evaluation = one request: (in process) a wire-reachable message given to convert.ToQuery + Index.Execute under recover, or (real server) raw request bytes delivered through a pass-through gRPC codec, " +
 		"each followed by a well-formed probe request with a known answer; the server process must stay alive, keep answering and answer the probe correctly; " +
-		"requests: every single and every pair of structural omissions at every position of valid seed trees, random field combinations, mutated wire encodings, nesting up to the decoder's limit; " +
+		"a concurrent phase sends the hostile requests mixed with well-formed queries of known answer from 16 clients at once (default and tiny cache); requests: every single and every pair of structural omissions at every position of valid seed trees, random field combinations, mutated wire encodings, nesting up to the decoder's limit, group-by lists of 7..130, 200 and 500 entries naming one or two low-cardinality columns; " +
 		"distinct_nontrivial = distinct request byte strings")
 	r.Assume("nesting <= protobuf-go's decode recursion limit (10000 messages)", "message size <= gRPC's 4 MiB default", "a response to a malformed-but-decodable query is not checked for content, only that it is a response or an RPC error")
 	rng := r.RNG("c14")
@@ -273,6 +276,13 @@ func runC14(r *vf.Run) {
 	for len(ds.Cols) < 2 {
 		ds = identDataset(rng, "c14", 3000, false)
 	}
+	// two columns with few values, for the long group-by lists
+	for i, row := range ds.Rows {
+		if len(row) > 0 {
+			row["lc3"], row["lc2"] = fmt.Sprint(i%3), fmt.Sprint(i%7%2)
+		}
+	}
+	ds.Index()
 	dir := filepath.Join(r.Scratch, "c14")
 	mustMkdir(dir)
 	path := filepath.Join(dir, "c14.updog")
@@ -351,9 +361,13 @@ func runC14(r *vf.Run) {
 			}
 		}
 	}
-	// 2. random messages over every field combination
+	// 2. random messages over every field combination (group-by lists over the two columns with the fewest values and over
+	// the first column now and then: a list over two columns of a thousand values each costs a million intersections)
+	gbCols := append([]string{}, cols...)
+	sort.SliceStable(gbCols, func(i, j int) bool { return len(ds.Vals[gbCols[i]]) < len(ds.Vals[gbCols[j]]) })
+	gbCols = gbCols[:2]
 	for i := 0; i < r.Pick(1500, 15000); i++ {
-		addMsg(fmt.Sprintf("random/%d", i), "random-message", randomRequest(rng, cols, 0))
+		addMsg(fmt.Sprintf("random/%d", i), "random-message", randomRequest(rng, cols, gbCols))
 	}
 	// 2b. very many queries in one request; ids far outside the batch size
 	{
@@ -395,6 +409,36 @@ func runC14(r *vf.Run) {
 	for i, gb := range [][]string{{"nosuch"}, {cols[0], "nosuch"}, {""}, {"nosuch", cols[0]}, {cols[0], cols[0], "NOSUCH"}} {
 		addMsg(fmt.Sprintf("unknown-groupby/%d", i), "unknown-groupby", &pb.QueryRequest{Queries: []*pb.Query{{Expr: a.ToProto(), GroupBy: gb}}})
 		addMsg(fmt.Sprintf("unknown-groupby/%d-second", i), "unknown-groupby", &pb.QueryRequest{Queries: []*pb.Query{{Expr: b.ToProto(), GroupBy: []string{cols[0]}}, {Expr: oracle.Not(a).ToProto(), GroupBy: gb}}})
+	}
+	// 2e. long group-by lists naming the same one or two low-cardinality columns again and again (cheap to evaluate: the
+	// groups do not multiply; whatever is sized by the product of the value counts overflows)
+	{
+		byCard := append([]string{}, cols...)
+		sort.SliceStable(byCard, func(i, j int) bool { return len(ds.Vals[byCard[i]]) < len(ds.Vals[byCard[j]]) })
+		var low []string
+		for _, c := range byCard {
+			if len(ds.Vals[c]) >= 2 && len(ds.Vals[c]) <= 40 && len(low) < 3 {
+				low = append(low, c)
+			}
+		}
+		r.Extra("long_groupby_columns_cardinalities", func() (l []int) {
+			for _, c := range low {
+				l = append(l, len(ds.Vals[c]))
+			}
+			return
+		}())
+		for ci, c := range low {
+			for _, n := range append(seqInts(7, 130), 200, 500) {
+				gb := make([]string, n)
+				for i := range gb {
+					gb[i] = c
+					if ci >= 1 && i%2 == 1 {
+						gb[i] = low[0]
+					}
+				}
+				addMsg(fmt.Sprintf("long-groupby/c%d/n%d", ci, n), "long-groupby", &pb.QueryRequest{Queries: []*pb.Query{{Expr: a.ToProto(), GroupBy: gb}}})
+			}
+		}
 	}
 	// 3. deep nesting up to the decoder's limit
 	for _, depth := range []int{100, 2000, 4900, 5100, 9000} {
@@ -558,6 +602,143 @@ func runC14(r *vf.Run) {
 		r.Extra("rpc_status_histogram_"+name, srv.codes)
 		r.Cover("server_configurations", name)
 	}
+	// concurrent phase: 16 clients at once send well-formed queries with known answers (many of them new to the cache)
+	// mixed with the hostile requests; the server must survive, answer the well-formed ones correctly, and answer the
+	// probes afterwards
+	var fresh []c04Query
+	for i := 0; i < 400; i++ {
+		e := gen.Expr(rng, ds, cols, 1+rng.Intn(3), 3)
+		var gb []string
+		if i%4 == 0 {
+			gb = gen.GroupBy(rng, ds, 1, 300)
+		}
+		if q := (c04Query{E: e, GB: gb, Want: oracle.Eval(ds.Rows, ds.Cols, e, gb)}); !q.Want.Err {
+			fresh = append(fresh, q)
+		}
+	}
+	var small []hostile
+	for _, h := range reqs {
+		if len(h.raw) < 20000 && h.class != "many-queries" && h.class != "long-groupby" {
+			small = append(small, h)
+		}
+	}
+	for _, so := range [][]string{nil, {"-s", "2000"}} {
+		name := "concurrent/default"
+		if so != nil {
+			name = "concurrent/tiny-cache"
+		}
+		if !r.Want(name) || len(fresh) == 0 {
+			continue
+		}
+		r.Progress(name)
+		sp, err := startServer(r, binPath("updog"), path, so, nil)
+		if err != nil {
+			r.Inconclusive(name + ": " + err.Error())
+			continue
+		}
+		logf, _ := os.Create(filepath.Join(dir, "requests-"+strings.ReplaceAll(name, "/", "-")+".log"))
+		var logMu sync.Mutex
+		var wg sync.WaitGroup
+		var bad atomic.Int64
+		var sent, hostileSent, answered atomic.Int64
+		per := r.Pick(250, 1500)
+		for g := 0; g < 16; g++ {
+			wg.Add(1)
+			go func(g int) {
+				defer wg.Done()
+				rng := r.RNG(fmt.Sprintf("%s/g%d", name, g))
+				conn, _, err := dial(sp.addr)
+				if err != nil {
+					return
+				}
+				defer conn.Close()
+				for i := 0; i < per && bad.Load() == 0; i++ {
+					var raw []byte
+					var q *c04Query
+					if rng.Intn(4) == 0 {
+						raw = small[rng.Intn(len(small))].raw
+						hostileSent.Add(1)
+					} else {
+						q = &fresh[rng.Intn(len(fresh))]
+						raw, _ = proto.Marshal(&pb.QueryRequest{Queries: []*pb.Query{{Id: 99, Expr: q.E.ToProto(), GroupBy: q.GB}}})
+					}
+					logMu.Lock()
+					fmt.Fprintf(logf, "g%d #%d %x\n", g, i, headBytes(raw, 3000))
+					logMu.Unlock()
+					ctx, cancel := context.WithTimeout(context.Background(), 60*time.Second)
+					var resp []byte
+					err := conn.Invoke(ctx, pb.QueryService_Query_FullMethodName, &raw, &resp, grpc.ForceCodec(rawCodec{}))
+					cancel()
+					sent.Add(1)
+					if q == nil {
+						if c := status.Code(err); c == codes.Unavailable || c == codes.DeadlineExceeded {
+							if bad.Add(1) == 1 {
+								time.Sleep(300 * time.Millisecond)
+								r.Violation(name, "server-crashed", map[string]any{"client": g, "request_of_client": i, "error": err.Error(), "server_process_alive": sp.alive(), "request_hex": fmt.Sprintf("%x", headBytes(raw, 2000)),
+									"note": "16 clients at once; the request log of this phase names what was in flight"})
+							}
+							return
+						}
+						continue
+					}
+					problem := ""
+					if err != nil {
+						problem = "well-formed query failed: " + err.Error()
+					} else {
+						var pr pb.QueryResponse
+						if uerr := proto.Unmarshal(resp, &pr); uerr != nil {
+							problem = "response is not a QueryResponse: " + uerr.Error()
+						} else {
+							problem = compareBatch(&pr, []c04Query{*q}, []int32{99})
+						}
+					}
+					if problem != "" {
+						if bad.Add(1) == 1 {
+							time.Sleep(300 * time.Millisecond)
+							kind := "wrong-answer-under-concurrent-requests"
+							if !sp.alive() || status.Code(err) == codes.Unavailable {
+								kind = "server-crashed"
+							}
+							r.Violation(name, kind, map[string]any{"client": g, "request_of_client": i, "query": fmt.Sprintf("%s ; %q", q.E.String(), q.GB), "problem": problem, "server_process_alive": sp.alive()})
+						}
+						return
+					}
+					answered.Add(1)
+				}
+			}(g)
+		}
+		wg.Wait()
+		logf.Close()
+		r.Eval(int(sent.Load()))
+		r.Distinct(name)
+		r.Count("concurrent_requests", sent.Load())
+		r.Count("concurrent_hostile_requests", hostileSent.Load())
+		r.Count("concurrent_well_formed_answered_correctly", answered.Load())
+		if bad.Load() == 0 {
+			// the probes afterwards, one at a time
+			conn, _, err := dial(sp.addr)
+			if err == nil {
+				plog, _ := os.Create(filepath.Join(dir, "requests-"+strings.ReplaceAll(name, "/", "-")+"-probes.log"))
+				srv := &c14Server{r: r, sp: sp, conn: conn, probes: probes, probeBs: probeBs, reqLog: plog, codes: map[string]int{}}
+				for i := 0; i < 8 && !srv.dead; i++ {
+					srv.send(fmt.Sprintf("%s/probe-after/%d", name, i), "after-concurrent-phase", probeBs[i%len(probeBs)])
+				}
+				conn.Close()
+				plog.Close()
+				if srv.dead {
+					continue
+				}
+			}
+		}
+		alive := sp.alive()
+		_, log := sp.stop()
+		if bad.Load() == 0 && (!alive || strings.Contains(log, "panic:") || strings.Contains(log, "fatal error:")) {
+			r.Violation(name, "server-died", map[string]any{"log": tail(log, 8000)})
+		} else if bad.Load() > 0 {
+			r.Extra("server_log_"+strings.ReplaceAll(name, "/", "_"), tail(log, 4000))
+		}
+		r.Cover("concurrent_phase_configurations", name)
+	}
 	r.Sample("requests", map[string]any{"classes": map[string]int{"total": len(reqs)}, "example_omission": reqs[1].id, "example_hex": fmt.Sprintf("%x", headBytes(reqs[1].raw, 200))})
 	r.Floor("every omission kind applied", r.Covered("omission_kinds") == len(omissionKinds))
 	r.Floor("probes answered", r.GetCount("probes_answered_correctly") > 100)
@@ -567,7 +748,7 @@ func runC14(r *vf.Run) {
 }
 
 // randomRequest builds a message where every field may be set or unset.
-func randomRequest(rng *rand.Rand, cols []string, depth int) *pb.QueryRequest {
+func randomRequest(rng *rand.Rand, cols []string, gbCols []string) *pb.QueryRequest {
 	req := &pb.QueryRequest{}
 	n := rng.Intn(4)
 	for i := 0; i < n; i++ {
@@ -576,7 +757,7 @@ func randomRequest(rng *rand.Rand, cols []string, depth int) *pb.QueryRequest {
 			q.Expr = randomPBExpr(rng, cols, 0)
 		}
 		for k := rng.Intn(3); k > 0; k-- {
-			q.GroupBy = append(q.GroupBy, []string{cols[0], "", "nosuch", cols[len(cols)-1]}[rng.Intn(4)])
+			q.GroupBy = append(q.GroupBy, []string{gbCols[0], "", "nosuch", gbCols[len(gbCols)-1]}[rng.Intn(4)])
 		}
 		req.Queries = append(req.Queries, q)
 	}
